@@ -137,11 +137,13 @@ def stat_dt(case):
     return case[9] if len(case) > 9 else "f8"
 
 
-def make_sel(d, sel):
+def make_sel(d, sel, x=None):
+    """`x` = the attribute the inequality leaves refer to (default: the component named "x")"""
     if sel is None:
         return None
     k = sel[0]
-    x = d.id["x"]
+    if x is None:
+        x = d.id["x"]
     px = d.pixel_component_ids
     if k == "gt":
         return x > dec(sel[1])
@@ -163,13 +165,13 @@ def make_sel(d, sel):
     if k == "slice":
         return SliceSubsetState(d, [slice(*t) for t in sel[1:]])
     if k == "and":
-        return make_sel(d, sel[1]) & make_sel(d, sel[2])
+        return make_sel(d, sel[1], x) & make_sel(d, sel[2], x)
     if k == "or":
-        return make_sel(d, sel[1]) | make_sel(d, sel[2])
+        return make_sel(d, sel[1], x) | make_sel(d, sel[2], x)
     if k == "xor":
-        return make_sel(d, sel[1]) ^ make_sel(d, sel[2])
+        return make_sel(d, sel[1], x) ^ make_sel(d, sel[2], x)
     if k == "not":
-        return ~make_sel(d, sel[1])
+        return ~make_sel(d, sel[1], x)
     raise ValueError(sel)
 
 
@@ -835,7 +837,11 @@ def near_log_edge(case, guard=1e-9):
             continue
         t = bins * (math.log(x) - math.log(lo)) / (math.log(hi) - math.log(lo))
         k = round(t)
-        if 1 <= k <= bins - 1 and abs(t - k) < guard and (hi / lo) ** k != (x / lo) ** bins:
+        # a log range that is narrow against the magnitude of log10(x): the distance to the edge must also be
+        # resolvable by doubles (a few ulp of log10(x), in units of the bin width in log space)
+        width = abs(math.log10(hi) - math.log10(lo)) / bins
+        res = 16 * 2.0 ** -52 * max(1.0, abs(math.log10(lo)), abs(math.log10(hi))) / width if width > 0 else 1.0
+        if 1 <= k <= bins - 1 and abs(t - k) < max(guard, res) and (hi / lo) ** k != (x / lo) ** bins:
             return True
     return False
 
@@ -960,6 +966,17 @@ class HistFamily(Family):
         """every storage dtype for the attribute and for the weights (clean stratum: no value on or near an edge)"""
         quick = tier == "quick"
         per = 4 if quick else 40
+        # finding stratum F10e (capped): log-space histograms of attributes whose np.log10 numpy evaluates in
+        # half / single precision (float16, float32, 8- and 16-bit integers, bool); range ends on data values
+        narrow_log = [("f4", [1, 16777218], 1, 16777218, 4), ("u1", [0, 7, 0, 1, 0, 2, 2, 3], 2, 7, 2),
+                      ("f2", [2050, 32768], 2050, 32768, 5), ("i2", [3, 30000, 500, 7], 3, 30000, 3),
+                      ("i1", [1, 100, 10, 3], 1, 100, 3), ("u2", [5, 40000, 300], 5, 40000, 2), ("f4", [3, 5, 7, 1000], 3, 1000, 3)]
+        for k in range(3 if quick else 10):
+            for xdt, flat, r0, r1, bins in narrow_log:
+                b = 1 + (bins + k - 1) % 5
+                case = [[len(flat)], flat, None, None, r0, r1, b, True, [xdt, "f8"]]
+                if not has_interior_edge(case) and not near_log_edge(case):
+                    yield case
         for xdt in ALL_DT:
             for bs in HX[xdt]:
                 for j, wdt in enumerate([None] + ALL_DT):
@@ -1036,7 +1053,8 @@ class HistFamily(Family):
 
     def signature(self, case, po, res):
         br = res.get("br") or ""
-        return {"construct": "interior-edge" if str(br).endswith("-edge") else "none",
+        return {"construct": "log-narrow-dtype" if str(br).endswith("-narrowlog") else
+                "interior-edge" if str(br).endswith("-edge") else "none",
                 "tot": res.get("tot"), "adm": res.get("adm"), "log": bool(case[7]),
                 "weights": case[2] is not None, "dtypes": "/".join(hist_dts(case))}
 
@@ -1330,6 +1348,577 @@ class Hist2Family(Family):
             yield [sh, xv, yv, w, sel, rx0, rx1, ry0, ry1, bx, 1, lx, ly]
 
 
+# ------------------------------------------------------------------------------------------
+# round 3: SEQUENCES of calls on one dataset and shared subset-state objects
+# ------------------------------------------------------------------------------------------
+# case = [sh, comps, sels, calls]
+#   comps : [[dtype, flat], ...]          attributes c0, c1, ...
+#   sels  : [[att, sel], ...]             subset-state OBJECTS (inequality leaves refer to attribute `att`);
+#                                         built once, shared by every call that names them
+#   calls : ["stat", att, sid|None, axis, finite, positive, statistic, view, n_chunk_max]
+#           ["hist", att, watt|None, sid|None, r0, r1, bins, log]
+#           ["prof", att, sid|None, x_axis, function]           ProfileLayerState.profile (one viewer state per case)
+#           ["hstate", att, sid|None, r0, r1, bins, log]        HistogramLayerState.histogram (idem)
+# executed in order on the SAME Data / state / viewer-state objects.  The python observable is
+# [results, final masks (to_mask(data, None) and get_mask(state) per state), final stored arrays]; the Lean
+# driver judges every call on its own against the definition on the ORIGINAL data / selection and demands
+# that the final masks and arrays are the original ones (statistics are read-only).
+
+MEMO_KINDS = ("gt", "lt", "ge", "le", "pixgt", "and", "or", "xor", "not")
+NARROW_LOG = ("f2", "f4", "i1", "u1", "i2", "u2", "b1")     # np.log10 is evaluated in half / single precision: finding F10e
+SEQ_STATS = ["sum", "mean", "minimum", "maximum", "median", ["percentile", 50]]
+FLAGS = [(True, False), (False, False), (True, True), (False, True)]
+
+
+def comp_has(flat, what):
+    return any(v in what for v in flat if isinstance(v, str))
+
+
+def seq_fix_stat(call, comps, sels):
+    """keep a statistic call inside the modelled / finding-free domain: the plain (non-NaN-aware) path
+    with a NaN in the data is finding F10c (has its own capped stratum in `stat`), percentiles with an
+    infinity and finite=False are outside numpy's modelled interpolation"""
+    _, att, sid, axis, fin, pos, stat, view, nmax = call
+    flat = comps[att][1]
+    nomask = sid is None or (sels[sid][1][0] == "slice" and view is None)
+    if not fin and not pos and nomask and comp_has(flat, ("nan",)):
+        fin = True
+    if not fin and isinstance(stat, list) and comp_has(flat, ("pinf", "ninf")):
+        fin = True
+    if sid is not None and sels[sid][1][0] == "slice" and isinstance(view, list):
+        sh = None
+    return ["stat", att, sid, axis, fin, pos, stat, view, nmax]
+
+
+def hist_is_clean(sh, flat, r0, r1, bins, log):
+    probe = [sh, flat, None, None, r0, r1, bins, log]
+    if crashes_fast_histogram(r0, r1, log):
+        return False
+    if log and (fr(r0) <= 0 or fr(r1) <= 0):
+        return False
+    return not has_interior_edge(probe) and not near_log_edge(probe) and lin_clear_of_edges(probe)
+
+
+def seq_normalize(case):
+    """drop state objects / attributes that no call (and no remaining state) refers to"""
+    sh, comps, sels, calls = case
+    used_s = sorted({c[2] for c in calls if c[0] in ("stat", "prof", "hstate") and c[2] is not None} |
+                    {c[3] for c in calls if c[0] == "hist" and c[3] is not None})
+    smap = {s: i for i, s in enumerate(used_s)}
+    sels2 = [sels[s] for s in used_s]
+    used_c = {c[1] for c in calls} | {c[2] for c in calls if c[0] == "hist" and c[2] is not None} | {s[0] for s in sels2}
+    used_c = sorted(used_c)
+    cmap = {a: i for i, a in enumerate(used_c)}
+    comps2 = [comps[a] for a in used_c]
+    sels2 = [[cmap[a], sel] for a, sel in sels2]
+    calls2 = []
+    for c in calls:
+        c = list(c)
+        c[1] = cmap[c[1]]
+        if c[0] == "hist":
+            c[2] = None if c[2] is None else cmap[c[2]]
+            c[3] = None if c[3] is None else smap[c[3]]
+        else:
+            c[2] = None if c[2] is None else smap[c[2]]
+        calls2.append(c)
+    return [sh, comps2, sels2, calls2]
+
+
+def call_as_model(call, sh):
+    """what the driver is sent for a call: the viewer-state calls are the statistic / histogram they stand for"""
+    if call[0] == "prof":
+        _, att, sid, xa, func = call
+        return ["stat", att, sid, ["t"] + [a for a in range(len(sh)) if a != xa], True, False, func, None, BIG]
+    if call[0] == "hstate":
+        _, att, sid, r0, r1, bins, log = call
+        return ["hist", att, None, sid, r0, r1, bins, log]
+    return call
+
+
+class SeqFamily(Family):
+    name = "seq"
+    exhaustive = False
+    batch = 120
+    budget_share = 1.6
+    case_timeout = 30.0
+
+    def reset(self):
+        # the @memoize tables are process-wide and keyed by object identity: start every case empty
+        try:
+            from glue.core.decorators import clear_all_caches
+            clear_all_caches()
+        except Exception:
+            pass
+
+    # ---- generators --------------------------------------------------------------------
+    def cases(self, tier, rng):
+        a = self._core_pairs(tier, rng)
+        b = self._core_triples(tier, rng)
+        c = self._random(tier, rng)
+        v = self._core_viewers(tier, rng)
+        while True:
+            n = 0
+            for it, k in ((a, 300), (b, 120), (v, 12), (c, 180)):
+                for case in itertools.islice(it, k):
+                    n += 1
+                    yield case
+            if n == 0:
+                return
+
+    @staticmethod
+    def _core_world(nd):
+        """dataset of the exhaustive core: c0 has NaN / +inf / non-positive values INSIDE every selection,
+        c1 is finite, positive and distinct (so a lost element always changes every statistic of c1)"""
+        if nd == 1:
+            sh = [5]
+            c0 = [1, "nan", -4, "pinf", 6]
+            c1 = [10, 20, 30, 40, 50]
+            bits = [True, True, True, True, False]
+            sl = ["slice", [0, 4, None]]
+        else:
+            sh = [2, 3]
+            c0 = [1, "nan", 3, -4, "pinf", 6]
+            c1 = [10, 20, 30, 40, 50, 60]
+            bits = [True, True, True, True, True, False]
+            sl = ["slice", [None, None, None], [0, 2, None]]
+        top = c1[-1]
+        kinds = {
+            "ineq": ["lt", qv(2 * top - 5, 2)],                                   # memoised: all but the last element
+            "and": ["and", ["gt", 5], ["lt", qv(2 * top - 5, 2)]],               # memoised composite
+            "not": ["not", ["ge", qv(2 * top - 5, 2)]],                          # memoised invert
+            "or": ["or", ["lt", 25], ["pixgt", nd - 1, 0]],                      # memoised composite over a pixel inequality
+            "bits": ["bits"] + bits,                                             # MaskSubsetState (copies)
+            "range": ["pixrange", nd - 1, 0, 1] if nd > 1 else ["pixrange", 0, 0, 3],   # RangeSubsetState (not memoised)
+            "slice": sl,                                                         # SliceSubsetState
+        }
+        return sh, [["f8", c0], ["f8", c1]], kinds
+
+    @staticmethod
+    def _modes(nd, sel_kind):
+        """(axis, view, nmax): no axis / reduction along all axes but one, un-chunked and chunked / a view"""
+        if nd == 1:
+            return [(None, None, BIG), (0, None, BIG), (None, ["v", ["s", 1, None, None]], BIG)]
+        out = [(None, None, BIG), (["t", 1], None, BIG), (["t", 1], None, 2), (["t", 0], None, 3),
+               (["t", 0], ["v", ["s", None, None, None], ["s", 0, 2, None]], BIG)]
+        return out
+
+    def _core_pairs(self, tier, rng):
+        """every ordered pair of calls from {attribute} x {finite, positive} x {mode} on the SAME state
+        object or on a twin object (equal selection, different object), per state kind; statistic rotates"""
+        quick = tier == "quick"
+        cnt = 0
+        for nd in (2, 1):
+            sh, comps, kinds = self._core_world(nd)
+            for kname, sel in kinds.items():
+                modes = self._modes(nd, kname)
+                firsts = [(att, fl, m) for att in (0, 1) for fl in FLAGS for m in modes]
+                seconds = [(att, fl, m, twin) for att in (1, 0) for fl in FLAGS for m in modes for twin in (False, True)]
+                for i, (a1, f1, m1) in enumerate(firsts):
+                    for j, (a2, f2, m2, twin) in enumerate(seconds):
+                        cnt += 1
+                        if quick:
+                            # quick: every first call against a rotating third of the second calls; twins
+                            # (no shared object: only the independence of distinct objects) more thinly
+                            if (i + j) % 3 != cnt % 3 and not (a1 == 0 and a2 == 1 and not twin and f2 == (True, False)):
+                                continue
+                            if twin and (i + j) % 2:
+                                continue
+                        st1 = SEQ_STATS[cnt % len(SEQ_STATS)]
+                        st2 = SEQ_STATS[(cnt // 7) % len(SEQ_STATS)]
+                        sels = [[1, sel], [1, sel]]
+                        calls = [["stat", a1, 0, m1[0], f1[0], f1[1], st1, m1[1], m1[2]],
+                                 ["stat", a2, 1 if twin else 0, m2[0], f2[0], f2[1], st2, m2[1], m2[2]]]
+                        calls = [seq_fix_stat(c, comps, sels) for c in calls]
+                        yield seq_normalize([sh, comps, sels, calls])
+
+    def _core_triples(self, tier, rng):
+        """A (fills a cache: statistic / histogram / nothing) ; B (a call whose filter drops selected
+        elements) ; C (observer: other attribute / other filter / histogram / profile) — same state object"""
+        quick = tier == "quick"
+        cnt = 0
+        for nd in (2, 1):
+            sh, comps, kinds = self._core_world(nd)
+            top = comps[1][1][-1]
+            clean = [b for b in (2, 3, 4, 5, 1) if hist_is_clean(sh, comps[1][1], 5, top + 5, b, False)]
+            hist_c1 = ["hist", 1, None, 0, 5, top + 5, clean[1], False]
+            hist_w = ["hist", 1, 1, 0, 5, top + 5, clean[0], False]
+            for kname, sel in kinds.items():
+                modes = self._modes(nd, kname)
+                As = [None, ["stat", 1, 0, None, True, False, "sum", None, BIG], hist_c1,
+                      ["stat", 1, 0, modes[1][0], False, False, "maximum", modes[1][1], modes[1][2]]]
+                Bs = [["stat", 0, 0, m[0], fl[0], fl[1], None, m[1], m[2]] for m in modes for fl in ((True, False), (True, True), (False, True))]
+                Cs = [["stat", 1, 0, m[0], True, False, None, m[1], m[2]] for m in modes] + \
+                     [["stat", 0, 0, None, False, False, "maximum", None, BIG], ["stat", 0, 0, None, False, True, "minimum", None, BIG],
+                      hist_c1, hist_w]
+                if kname != "slice":
+                    Cs += [["prof", 1, 0, nd - 1, "sum"], ["hstate", 1, 0, 5, top + 5, clean[1], False]]
+                for A in As:
+                    for B in Bs:
+                        for C in Cs:
+                            cnt += 1
+                            if quick and cnt % 4 != 1 and C[0] in ("prof", "hstate"):
+                                continue          # the viewer states are slow: a quarter of them in quick
+                            if quick and cnt % 2 and A is not None and A[0] == "stat":
+                                continue
+                            calls = []
+                            for k, c in enumerate([A, B, C]):
+                                if c is None:
+                                    continue
+                                c = list(c)
+                                if c[0] == "stat" and c[6] is None:
+                                    c[6] = SEQ_STATS[(cnt + k) % len(SEQ_STATS)]
+                                calls.append(c)
+                            sels = [[1, sel]]
+                            calls = [seq_fix_stat(c, comps, sels) if c[0] == "stat" else c for c in calls]
+                            yield seq_normalize([sh, comps, sels, calls])
+
+    def _core_viewers(self, tier, rng):
+        """pairs of viewer-state reads on the SAME layer state (its cached profile / histogram must follow every
+        setting: attribute, function, x axis / attribute, limits, bin count, log), optionally with a statistic whose
+        filter drops selected elements in between; data layer and subset layers holding memoised / copied masks"""
+        quick = tier == "quick"
+        cnt = 0
+        for nd in (2, 1):
+            sh, comps, kinds = self._core_world(nd)
+            ranges = {0: [(-5, 7), (qv(1, 2), qv(13, 2))], 1: [(5, comps[1][1][-1] + 5), (15, comps[1][1][-1] - 5)]}
+            hsets = []
+            for att in (0, 1):
+                for (r0, r1) in ranges[att]:
+                    for bins in (1, 2, 3, 4):
+                        if hist_is_clean(sh, comps[att][1], r0, r1, bins, False):
+                            hsets.append((att, r0, r1, bins, False))
+                if att == 1:
+                    for bins in (1, 3):
+                        if hist_is_clean(sh, comps[att][1], 5, 100, bins, True):
+                            hsets.append((att, 5, 100, bins, True))
+            psets = [(att, xa, func) for att in (0, 1) for xa in range(nd) for func in ("sum", "maximum", "mean")]
+            drop = ["stat", 0, 0, None, True, True, "sum", None, BIG]
+            for kname in (None, "ineq", "and", "bits", "not", "range"):
+                sels = [] if kname is None else [[1, kinds[kname]]]
+                sid = None if kname is None else 0
+                for i, p1 in enumerate(psets):
+                    for j, p2 in enumerate(psets):
+                        cnt += 1
+                        if quick and cnt % 11:
+                            continue
+                        calls = [["prof", p1[0], sid, p1[1], p1[2]]]
+                        if sid is not None and cnt % 3 == 0:
+                            calls.append(drop)
+                        calls.append(["prof", p2[0], sid, p2[1], p2[2]])
+                        yield seq_normalize([sh, comps, sels, calls])
+                for i, h1 in enumerate(hsets):
+                    for j, h2 in enumerate(hsets):
+                        cnt += 1
+                        if quick and cnt % 11:
+                            continue
+                        calls = [["hstate", h1[0], sid, h1[1], h1[2], h1[3], h1[4]]]
+                        if sid is not None and cnt % 3 == 0:
+                            calls.append(drop)
+                        calls.append(["hstate", h2[0], sid, h2[1], h2[2], h2[3], h2[4]])
+                        if cnt % 5 == 0:
+                            calls.append(["hist", h1[0], None, sid, h1[1], h1[2], h1[3], h1[4]])
+                        yield seq_normalize([sh, comps, sels, calls])
+
+    def _random(self, tier, rng):
+        quick = tier == "quick"
+        for _ in range(1500 if quick else 60000):
+            case = self._random_case(rng, quick)
+            if case is not None:
+                yield case
+
+    @staticmethod
+    def _random_case(rng, quick):
+        nd = rng.choice([1, 2, 2, 3])
+        sh = [rng.randint(1, 4 if nd < 3 else 3) for _ in range(nd)]
+        size = int(np.prod(sh))
+        ncomp = rng.choice([2, 2, 3])
+        comps = []
+        for _ in range(ncomp):
+            if rng.random() < 0.8:
+                special = rng.choice([0.0, 0.2, 0.45])
+                comps.append(["f8", [rand_value(rng, special) for _ in range(size)]])
+            else:
+                dt = rng.choice(["f4", "f2", "i4", "i1", "u1", "i8", "b1"])
+                comps.append([dt, typed_random(rng, dt, size)])
+        sels = []
+        for _ in range(rng.choice([1, 1, 2, 2, 3, 4])):
+            att = rng.randrange(ncomp)
+            dt, flat = comps[att]
+            thr = None if dt == "f8" else safe_thresholds(dt, flat)
+            r = rng.random()
+            if r < 0.12:
+                sel = rand_slice_sel(rng, sh)
+            elif r < 0.5:
+                # memoised kinds, selections that tend to contain most elements
+                c = rng.choice(thr if thr is not None else POOL + [qv(7, 2)])
+                sel = rng.choice([["lt", c], ["ge", c], ["le", c], ["not", ["gt", c]], ["or", ["lt", c], ["pixgt", rng.randrange(nd), 0]],
+                                  ["and", ["ge", -4 if dt in ("f8", "f4", "f2", "i4", "i1", "i8") else 0], ["pixgt", rng.randrange(nd), -1]]])
+            else:
+                sel = rand_sel(rng, sh, thr=thr)
+            sels.append([att, sel])
+        ncall = rng.choice([2, 3, 3, 4, 5, 6, 8]) if not quick else rng.choice([2, 3, 3, 4, 5, 6])
+        calls = []
+        # mostly one "hot" state object that most calls share
+        hot = rng.randrange(len(sels))
+        for _ in range(ncall):
+            r = rng.random()
+            sid = None if rng.random() < 0.15 else (hot if rng.random() < 0.7 else rng.randrange(len(sels)))
+            att = rng.randrange(ncomp)
+            is_slice = sid is not None and sels[sid][1][0] == "slice"
+            if r < 0.68:
+                view = None if rng.random() < 0.6 else rand_view(rng, sh)
+                if is_slice and isinstance(view, list):
+                    view = ["v"] + [["i", it[1] % h] if it[0] == "i" else it for it, h in zip(view[1:], sh)]
+                vnd = view_ndim(sh, view)
+                q = rng.random()
+                if q < 0.3:
+                    axis = None
+                elif q < 0.45 and vnd > 0:
+                    axis = rng.randrange(vnd)
+                elif q < 0.8 and vnd > 1 and view is None:
+                    keep = rng.randrange(vnd)
+                    axis = ["t"] + [a for a in range(vnd) if a != keep]
+                else:
+                    axis = ["t"] + [a for a in range(vnd) if rng.random() < 0.5]
+                stat = rng.choice(STATS + ["sum", "mean", ["percentile", rng.choice([0, 25, 50, qv(75, 2), 100])]])
+                fin, pos = rng.choice(FLAGS + [(True, False)])
+                nmax = rng.choice([BIG, BIG, 1, 2, 3, max(1, size - 1)])
+                calls.append(seq_fix_stat(["stat", att, sid, axis, fin, pos, stat, view, nmax], comps, sels))
+            else:
+                viewer = r > 0.9 and not is_slice
+                dt, flat = comps[att]
+                finite = [v for v in flat if not is_special(v)]
+                if r > 0.95 and not is_slice:
+                    calls.append(["prof", att, sid, rng.randrange(nd), rng.choice(["sum", "mean", "maximum", "minimum", "median"])])
+                    continue
+                if not finite:
+                    continue
+                for _try in range(8):
+                    log = rng.random() < 0.25 and dt not in NARROW_LOG
+                    lo, hi = min(finite, key=fr), max(finite, key=fr)
+                    pick = rng.random()
+                    if pick < 0.4:
+                        r0, r1 = qv(fr(lo) - Fraction(1, 2)), qv(fr(hi) + Fraction(1, 2))
+                    elif pick < 0.7:
+                        r0, r1 = lo, hi
+                    else:
+                        r0, r1 = rng.choice(finite), rng.choice(finite)
+                    if fr(r0) == fr(r1):
+                        continue
+                    if abs(fr(r0)) > 2 ** 40 or abs(fr(r1)) > 2 ** 40:
+                        break
+                    if rng.random() < 0.15:
+                        r0, r1 = r1, r0
+                    bins = rng.randint(1, 5)
+                    if hist_is_clean(sh, flat, r0, r1, bins, log):
+                        if viewer:
+                            calls.append(["hstate", att, sid, r0, r1, bins, log])
+                        else:
+                            # weights whose double-precision sums are exact in any order
+                            wc = [a for a in range(ncomp) if not any(is_special(v) for v in comps[a][1])
+                                  and all(abs(fr(v)) <= 2 ** 30 and (fr(v) * 1024).denominator == 1 for v in comps[a][1])]
+                            watt = rng.choice(wc) if wc and rng.random() < 0.35 else None
+                            calls.append(["hist", att, watt, sid, r0, r1, bins, log])
+                        break
+        if len(calls) < 2:
+            return None
+        return seq_normalize([sh, comps, sels, calls])
+
+    # ---- execution ---------------------------------------------------------------------
+    def run_impl(self, case):
+        sh, comps, sels, calls = case
+        gc.disable()
+        try:
+            d = Data(**{"c%d" % i: make_array(sh, flat, dt) for i, (dt, flat) in enumerate(comps)})
+            cid = [d.id["c%d" % i] for i in range(len(comps))]
+            states = [make_sel(d, sel, cid[att]) for att, sel in sels]
+            keep = [d, states]
+            ctx = {}
+            outs = []
+            for call in calls:
+                try:
+                    outs.append(self._do_call(d, cid, states, call, ctx, keep, sh))
+                except ValueError:
+                    outs.append("value-error")
+                except Exception as e:     # an exception inside one call: recorded, the sequence goes on
+                    if os.environ.get("VERIF_DEBUG"):
+                        import traceback
+                        traceback.print_exc()
+                    outs.append(["py-exception", type(e).__name__])
+            masks = []
+            for st in states:
+                m1 = np.broadcast_to(np.asarray(st.to_mask(d, None)), d.shape)
+                m2 = np.broadcast_to(np.asarray(d.get_mask(st)), d.shape)
+                masks.append([[bool(v) for v in m1.ravel().tolist()], [bool(v) for v in m2.ravel().tolist()]])
+            datas = [[enc_exact(v) for v in np.asarray(d.get_component(c).data).ravel().tolist()] for c in cid]
+            del keep, ctx, states, d
+            return [outs, masks, datas]
+        finally:
+            gc.enable()
+
+    @staticmethod
+    def _do_call(d, cid, states, call, ctx, keep, sh):
+        kind = call[0]
+        if kind == "stat":
+            _, att, sid, axis, fin, pos, stat, view, nmax = call
+            kw = {}
+            if isinstance(stat, list):
+                sname, kw["percentile"] = "percentile", dec(stat[1])
+            else:
+                sname = stat
+            r = d.compute_statistic(sname, cid[att], subset_state=None if sid is None else states[sid],
+                                    axis=make_axis(axis), finite=fin, positive=pos, view=make_view(view),
+                                    n_chunk_max=nmax, **kw)
+            return canon_result(r)
+        if kind == "hist":
+            _, att, watt, sid, r0, r1, bins, log = call
+            h = d.compute_histogram([cid[att]], weights=None if watt is None else cid[watt],
+                                    range=[(dec(r0), dec(r1))], bins=[bins], log=[log],
+                                    subset_state=None if sid is None else states[sid])
+            return [enc_exact(v) for v in np.asarray(h).ravel().tolist()]
+        if kind == "prof":
+            from glue.viewers.profile.state import ProfileViewerState, ProfileLayerState
+            _, att, sid, xa, func = call
+            if "prof" not in ctx:
+                vs = ProfileViewerState()
+                ls = ProfileLayerState(viewer_state=vs, layer=d)
+                vs.layers.append(ls)
+                ctx["prof"] = (vs, {None: ls})
+                keep += [vs, ls]
+            vs, layers = ctx["prof"]
+            if sid not in layers:
+                sub = ctx.setdefault("subsets", {}).get(sid)
+                if sub is None:
+                    sub = d.new_subset()
+                    sub.subset_state = states[sid]       # the subset holds the SAME state object
+                    ctx["subsets"][sid] = sub
+                ls = ProfileLayerState(viewer_state=vs, layer=sub)
+                vs.layers.append(ls)
+                layers[sid] = ls
+                keep += [sub, ls]
+            ls = layers[sid]
+            vs.function = func
+            vs.x_att = d.pixel_component_ids[xa]
+            ls.attribute = cid[att]
+            prof = ls.profile
+            if prof is None:      # the first access after adding a layer only sets up callbacks
+                prof = ls.profile
+            x, y = prof
+            if len(y) == 0 and len(x) == 0:
+                return ["res", [sh[xa]], ["nan"] * sh[xa]]     # all-NaN profiles are plotted as empty
+            return canon_result(y)
+        if kind == "hstate":
+            from glue.viewers.histogram.state import HistogramViewerState, HistogramLayerState
+            _, att, sid, r0, r1, bins, log = call
+            if "hist" not in ctx:
+                vs = HistogramViewerState()
+                ls = HistogramLayerState(viewer_state=vs, layer=d)
+                vs.layers.append(ls)
+                ctx["hist"] = (vs, {None: ls})
+                keep += [vs, ls]
+            vs, layers = ctx["hist"]
+            if sid not in layers:
+                sub = ctx.setdefault("subsets", {}).get(sid)
+                if sub is None:
+                    sub = d.new_subset()
+                    sub.subset_state = states[sid]
+                    ctx["subsets"][sid] = sub
+                ls = HistogramLayerState(viewer_state=vs, layer=sub)
+                vs.layers.append(ls)
+                layers[sid] = ls
+                keep += [sub, ls]
+            ls = layers[sid]
+            vs.x_att = cid[att]
+            vs.x_log = log
+            vs.cumulative = False
+            vs.normalize = False
+            vs.hist_n_bin = bins
+            vs.hist_x_min = dec(r0)
+            vs.hist_x_max = dec(r1)
+            edges, h = ls.histogram
+            assert len(edges) == bins + 1
+            return [enc_exact(v) for v in np.asarray(h).ravel().tolist()]
+        raise ValueError(call)
+
+    def line(self, case, pyout):
+        from harness.core import sx
+        sh, comps, sels, calls = case
+        return sx(["seq", [sh, comps, sels, [call_as_model(c, sh) for c in calls]], pyout])
+
+    def nontrivial(self, case, po):
+        sh, comps, sels, calls = case
+        sids = [c[3] if c[0] == "hist" else c[2] for c in calls]
+        return isinstance(po, list) and len(calls) >= 2 and any(s is not None and sids.count(s) > 1 for s in sids)
+
+    def signature(self, case, po, res):
+        sh, comps, sels, calls = case
+        bad = res.get("bad")
+        sig = {"bad": "none" if bad == "none" else ("final" if str(bad).startswith("final") else "call"),
+               "hazard": res.get("hazard")}
+        try:
+            k = int(bad)
+            sig["badkind"] = calls[k][0]
+            sid = calls[k][3] if calls[k][0] == "hist" else calls[k][2]
+            sig["badsel"] = "none" if sid is None else sels[sid][1][0]
+        except Exception:
+            pass
+        return sig
+
+    def describe(self, case):
+        return case
+
+    def shrink(self, case):
+        sh, comps, sels, calls = case
+        # 1. fewer calls
+        if len(calls) > 1:
+            for i in range(len(calls)):
+                yield seq_normalize([sh, comps, sels, calls[:i] + calls[i + 1:]])
+        # 2. simpler calls
+        for i, c in enumerate(calls):
+            def rep(c2):
+                return seq_normalize([sh, comps, sels, calls[:i] + [c2] + calls[i + 1:]])
+            if c[0] in ("prof", "hstate"):
+                yield rep(call_as_model(c, sh))
+            if c[0] == "stat":
+                _, att, sid, axis, fin, pos, stat, view, nmax = c
+                if view is not None:
+                    vnd = view_ndim(sh, view)
+                    if vnd == len(sh):
+                        yield rep(["stat", att, sid, axis, fin, pos, stat, None, nmax])
+                if nmax != BIG:
+                    yield rep(["stat", att, sid, axis, fin, pos, stat, view, BIG])
+                if stat != "sum":
+                    yield rep(["stat", att, sid, axis, fin, pos, "sum", view, nmax])
+                if axis is not None and view is None:
+                    yield rep(["stat", att, sid, None, fin, pos, stat, view, BIG])
+                if pos or not fin:
+                    yield rep(seq_fix_stat(["stat", att, sid, axis, True, False, stat, view, nmax], comps, sels))
+            if c[0] == "hist":
+                _, att, watt, sid, r0, r1, bins, log = c
+                if watt is not None:
+                    yield rep(["hist", att, None, sid, r0, r1, bins, log])
+                if bins > 1 and hist_is_clean(sh, comps[att][1], r0, r1, 1, log):
+                    yield rep(["hist", att, None, sid, r0, r1, 1, log])
+        # 3. simpler selections
+        for i, (att, sel) in enumerate(sels):
+            if sel[0] in ("and", "or", "xor"):
+                for sub in (sel[1], sel[2]):
+                    yield [sh, comps, sels[:i] + [[att, sub]] + sels[i + 1:], calls]
+            if sel[0] == "not":
+                yield [sh, comps, sels[:i] + [[att, sel[1]]] + sels[i + 1:], calls]
+        # 4. simpler data (only attributes that no histogram refers to: bin edges depend on the values)
+        hist_atts = {c[1] for c in calls if c[0] in ("hist", "hstate")} | {c[2] for c in calls if c[0] == "hist" and c[2] is not None}
+        for a, (dt, flat) in enumerate(comps):
+            if a in hist_atts or dt != "f8":
+                continue
+            for i, v in enumerate(flat[:10]):
+                if v not in (0, 1) and not is_special(v):
+                    f2 = list(flat)
+                    f2[i] = 1 if dec(v) > 0 else 0
+                    yield [sh, comps[:a] + [[dt, f2]] + comps[a + 1:], sels, calls]
+
+
+
 PROP = Property(
     id="C10",
     title="Statistics and histograms equal their definition regardless of chunking or views",
@@ -1338,8 +1927,10 @@ PROP = Property(
               "C10.reduce_partition_min", "C10.reduce_partition_max", "C10.reduce_partition_sum",
               "C10.spec_dtype_independent", "C10.spec_cell_reduce", "C10.accept_exact", "C10.stat_accepted_partial",
               "C10.accept_witness",
+              "C10.stat_no_inplace_write", "C10.stat_heap_refines_pure", "C10.stat_sequence_independent",
+              "C10.stat_sequence_operands_unchanged", "C10.seq_alias_witness",
               "C10.hist_total", "C10.hist_bin", "C10.hist_bin_top", "C10.hist_perbin_partial", "C10.F10_witness"],
-    families=[StatFamily(), HistFamily(), ProfFamily(), HistStateFamily(), Hist2Family()],
+    families=[SeqFamily(), StatFamily(), HistFamily(), ProfFamily(), HistStateFamily(), Hist2Family()],
     trusted_base=["numpy reducers (nanmin/nanmax/nansum/nanmean/nanmedian/nanpercentile and the plain ones) carried out "
                   "in IEEE double precision are assumed to stay within the standard forward error bounds that "
                   "Stats.specAccept computes exactly from the kept values of each cell (exact when every partial sum is "
@@ -1347,7 +1938,10 @@ PROP = Property(
                   "means, (4n+8)*2^-52*max|x| for percentiles); fast_histogram.histogram1d is assumed to agree with exact "
                   "arithmetic on the generated data (bins compared exactly; weights have exact double sums)",
                   "subset_state.to_mask(data, view) == full mask[view] (property C04) — the model evaluates "
-                  "the selection to its full-shape mask"],
+                  "the selection to its full-shape mask",
+                  "heap model (StatsSeq): np.ones / np.array(..., dtype=float) / fancy indexing / the nan-functions allocate fresh "
+                  "arrays and the modelled &= / [~keep] = nan are the only writes — checked on the real code by the seq family "
+                  "(every later call and the final masks / stored arrays)"],
     assumptions=["data values are exactly representable in the component's storage dtype (float16/32/64, int8..64, "
                  "uint8..64, bool; re-checked by the driver: DType.holds), NaN or ±inf for the float dtypes; exact results "
                  "stay inside the double range and integer sums inside int64; comparison constants of inequality "
@@ -1358,5 +1952,8 @@ PROP = Property(
          "typed strata: 12 storage dtypes x precision-stressing arrays x statistic x (selection x view x axis x chunking) "
          "core plus seeded random incl. long reduction axes, typed histogram attribute x weights dtypes; histogram ranges "
          "ending exactly on data values at magnitudes 1e-12..1e15 (log) and large linear magnitudes; 2-d histograms (clean stratum); "
-         "non-trivial = a selection, a view or a chunk limit is present / histogram has a non-zero bin",
+         "sequences (family seq): exhaustive pairs / triples of calls on two core datasets x 7 state kinds (memoised and not) x "
+         "{attribute with NaN/inf/non-positive values inside the selection} x {finite, positive} x {no axis, un-chunked, chunked, view} x "
+         "{same object, twin object}, plus seeded random sequences of 2-8 statistic / histogram / profile-layer / histogram-layer calls; "
+         "non-trivial = a selection, a view or a chunk limit is present / histogram has a non-zero bin / a state object is shared by two calls",
 )
